@@ -83,6 +83,8 @@ func c12Replay(task engine.SeqTask) (res engine.SeqResult) {
 	// a bystander dataset with the same entity
 	pool := model.Pool(0)
 	_ = h.ApplyWrite(server.VOp{K: "batch", DS: "B", Ents: []server.VEnt{{ID: "e1", C: model.PoolIndex(pool, "s")}}})
+	// ... in two versions, the later one with a reference the histories also write into A
+	_ = h.ApplyWrite(server.VOp{K: "batch", DS: "B", Ents: []server.VEnt{{ID: "e1", C: model.PoolIndex(pool, "v1r2")}}})
 	chk := &server.VCheck{H: h, SkipKnownC03: true}
 	scopes := server.VScopes(dss)
 	var times []int64
@@ -98,6 +100,19 @@ func c12Replay(task engine.SeqTask) (res engine.SeqResult) {
 		switch op.K {
 		case "batch":
 			if err := h.ApplyWrite(op); err != nil {
+				compacted := false
+				for _, raw := range task.Hist[:i] {
+					var po server.VOp
+					if json.Unmarshal(raw, &po) == nil && po.K == "compact" {
+						compacted = true
+					}
+				}
+				if compacted {
+					// a valid batch is refused on a dataset that has been compacted: compaction was not invisible
+					res.Viol = append(res.Viol, engine.Violation{Key: "C12:write-refused-after-compaction|" + short12(err.Error()), What: fmt.Sprintf("after a compaction earlier in the history the valid batch %s is refused: %v", op, err)})
+					res.Skip, res.Key = true, "skip"
+					return
+				}
 				res.HarnessEr = err.Error()
 				return
 			}
@@ -243,4 +258,11 @@ func init() {
 		c12Crash(r)
 	})
 	_ = strings.Join
+}
+
+func short12(s string) string {
+	if len(s) > 80 {
+		return s[:80]
+	}
+	return s
 }
